@@ -366,12 +366,16 @@ def rule_r3_r4(chk, db, helpers):
         ps = pair_summary(body)
         optional = "_opt_" in sh
         if ps is None or ps.get("error"):
-            # the read may sit in a private helper (a classifier answering Absent / Single(v) / Repeated): study the parser with it inlined
-            ib = inline.inlined(db, body)
-            if ib is not body:
-                ps2 = pair_summary(ib)
-                if ps2 is not None and not ps2.get("error"):
-                    body, ps = ib, ps2
+            # the read may sit in a private helper.  A helper answering Ok(Some(v)) / Ok(None) / Err(duplicate) is handled as a delegate below;
+            # any other shape (a classifier answering Absent / Single(v) / Repeated) is studied by inlining it into the parser
+            srcs0 = single_value_sources(db, body, cache) if ps is None else []
+            delegate_ok = len(srcs0) == 1 and not srcs0[0][2].get("error") and not srcs0[0][2].get("bad") and not srcs0[0][2].get("bad_dup")
+            if not delegate_ok:
+                ib = inline.inlined(db, body)
+                if ib is not body:
+                    ps2 = pair_summary(ib)
+                    if ps2 is not None and not ps2.get("error"):
+                        body, ps = ib, ps2
         if ps is not None:
             if ps.get("error"):
                 chk.fail("R3", sh, body.loc(ps["first"]), ps["error"])
@@ -437,10 +441,13 @@ def rule_r4_qs_none(chk, db, helpers):
         optional = sh != "parse_query"
         t0 = _qs_none_test(body)
         if t0 is None:
-            # the test may sit in a private classifier helper: look at the parser with it inlined
-            ib = inline.inlined(db, body)
-            if ib is not body and _qs_none_test(ib) is not None:
-                body, t0 = ib, _qs_none_test(ib)
+            srcs0 = single_value_sources(db, body, cache)
+            tg0 = _qs_none_test(srcs0[0][1]) if len(srcs0) == 1 else None
+            if not (tg0 is not None and _absent_ok(srcs0[0][1], tg0[1], True)):
+                # the test sits in a private helper that does not answer Ok(None) itself (a classifier): look at the parser with it inlined
+                ib = inline.inlined(db, body)
+                if ib is not body and _qs_none_test(ib) is not None:
+                    body, t0 = ib, _qs_none_test(ib)
         if t0 is not None:
             bi, rets = t0
             chk.verdict(_absent_ok(body, rets, optional), "R4", sh + ".no-query-string", body.loc(bi), "request without a query string: returns %s" % [w["kind"] for w in rets])
